@@ -124,8 +124,62 @@ def check_export(cont, ren, numbered, res, res2):
         ids = [r[hdr.index("row_id")] for r in rows]
         if numbered and ids != [str(i + 1) for i in range(len(ids))]:
             return ("row-ids", f"{fn}: numbered ids are {ids[:8]}..., expected 1..{len(ids)}")
-        if not numbered and (len(set(ids)) != len(ids) or "" in ids):
-            return ("row-ids", f"{fn}: readable ids not unique/non-empty: {sorted(i for i in ids if ids.count(i) > 1)[:4]}")
+        if not numbered and (len(set(ids)) != len(ids) or "" in ids or "start" in ids):
+            return ("row-ids", f"{fn}: readable ids not unique/non-empty: {sorted(i for i in ids if ids.count(i) > 1 or i in ('', 'start'))[:4]}")
+        # references resolve: every edge origin is "start" or a row id, every go_to target is a row id
+        known = set(ids)
+        from_cols = [i for i, h in enumerate(hdr) if re.fullmatch(r"from|edges\.\d+\.from", h)]
+        tcol, mcol = hdr.index("type") if "type" in hdr else None, hdr.index("message_text") if "message_text" in hdr else None
+        for k, r in enumerate(rows):
+            froms = [x for i in from_cols for x in ([r[i]] if r[i] else [])]
+            bad_from = [x for x in froms if x != "start" and x not in known]
+            if bad_from or not froms:
+                return ("row-ids", f"{fn}: row {k + 1} ({ids[k]}): edge origin {bad_from[:1] or 'missing'} names no row (numbered={numbered})")
+            if tcol is not None and r[tcol] == "go_to":
+                # the target cell is a list of row ids in the cell syntax: one element is written "id|"
+                tg = [x for x in (r[mcol] if mcol is not None else "").split("|") if x]
+                if not tg or any(x not in known for x in tg):
+                    return ("row-ids", f"{fn}: go_to row {k + 1} ({ids[k]}): target {r[mcol] if mcol is not None else None!r} names no row (numbered={numbered})")
+    return None
+
+
+def sheet_graph(text):
+    """rows of a sheet with every reference (edge origins, go_to targets) replaced by the POSITION of
+    the row it names (-1 for "start", None when it names no row)"""
+    hdr, rows = sheet_rows(text)
+    if not rows or "row_id" not in hdr:
+        return []
+    ids = [r[hdr.index("row_id")] for r in rows]
+    pos = {}
+    for i, x in enumerate(ids):
+        pos.setdefault(x, i)
+    pos["start"] = -1
+    from_cols = [i for i, h in enumerate(hdr) if re.fullmatch(r"from|edges\.\d+\.from", h)]
+    tcol, mcol = hdr.index("type") if "type" in hdr else None, hdr.index("message_text") if "message_text" in hdr else None
+    out = []
+    for r in rows:
+        froms = [pos.get(r[i]) for i in from_cols if r[i]]
+        tg = []
+        if tcol is not None and mcol is not None and r[tcol] == "go_to":
+            tg = [pos.get(x) for x in r[mcol].split("|") if x]
+        out.append((froms, tg))
+    return out
+
+
+def check_same_graph(readable, numbered):
+    """The readable and the numbered export of one container must denote the same graph: row k of
+    both sheets refers to rows at the same positions (a reference that names an existing but WRONG
+    row is invisible to the per-sheet checks).  Returns (key, summary) or None."""
+    if readable[0] != "ok" or numbered[0] != "ok":
+        return None
+    for fn in readable[1]:
+        if fn not in numbered[1]:
+            continue
+        a, b = sheet_graph(readable[1][fn]), sheet_graph(numbered[1][fn])
+        if a != b:
+            k = next((i for i in range(min(len(a), len(b))) if a[i] != b[i]), min(len(a), len(b)))
+            return ("row-ids", f"{fn}: row {k + 1} refers to rows at positions {a[k] if k < len(a) else None} in the readable sheet "
+                               f"but {b[k] if k < len(b) else None} in the numbered sheet (origins, go_to targets; -1 = start)")
     return None
 
 
@@ -182,6 +236,47 @@ def graph_features(fl):
 
 # ------------------------------------------------------------------ correspondence
 from common import enc_str, enc_list, parse_sexp, dec_str  # noqa: E402
+
+
+def rowid_features(fl, irows, rstats):
+    """Distribution of the situations the row-id theorems are about, measured on one loaded flow and
+    the rows the implementation exported for it (readable ids)."""
+    gotos = [(r[2][0][0] if r[2] else None, r[3][0] if r[3] else None) for r in irows if r[1] == "go_to"]
+    by_src, by_tgt, by_pair = {}, {}, {}
+    for s_, t_ in gotos:
+        by_src[s_] = by_src.get(s_, 0) + 1
+        by_tgt[t_] = by_tgt.get(t_, 0) + 1
+        by_pair[(s_, t_)] = by_pair.get((s_, t_), 0) + 1
+    shorts, mains = {}, {}
+    for n in fl.nodes:
+        try:
+            sn = n.short_name()
+        except Exception:
+            continue
+        shorts[sn] = shorts.get(sn, 0) + 1
+        try:
+            mv = n.actions[0].main_value() if n.actions else (n.router.result_name or getattr(n.router, "operand", ""))
+        except Exception:
+            mv = None
+        mains.setdefault(sn, set()).add(mv if isinstance(mv, str) else None)
+    ids = [r[0] for r in irows]
+    rstats["flows"] = rstats.get("flows", 0) + 1
+    rstats["rows"] = rstats.get("rows", 0) + len(irows)
+    rstats["goto_rows"] = rstats.get("goto_rows", 0) + len(gotos)
+
+    def bump(k, c):
+        rstats[k] = rstats.get(k, 0) + (1 if c else 0)
+
+    bump("flows_with_2+_back_edges_from_one_node", any(v > 1 for v in by_src.values()))
+    bump("flows_with_2+_back_edges_same_source_and_target", any(v > 1 for v in by_pair.values()))
+    bump("flows_with_2+_back_edges_into_one_node", any(v > 1 for v in by_tgt.values()))
+    bump("flows_with_3+_goto_rows", len(gotos) >= 3)
+    bump("flows_with_equal_short_names", any(v > 1 for v in shorts.values()))
+    bump("flows_with_truncation_clash_first_15_chars_equal",
+         any(shorts[k] > 1 and len(mains[k]) > 1 and len(k.split(".", 1)[-1]) >= 15 for k in shorts))
+    bump("flows_with_counter_suffix_beyond_1", any(re.search(r"\.(\d+)$", i) and int(re.search(r"\.(\d+)$", i).group(1)) >= 2 for i in ids))
+    bump("flows_with_goto_id_clash", len({i for i in ids if i.startswith("goto.")}) >= 2
+         and any(re.fullmatch(r"goto\..*\.\d+", i) for i in ids))
 
 
 class Unencodable(Exception):
@@ -352,7 +447,13 @@ def correspond(ctx, kind, cont, cstats, leak_expected=None):
             cstats["unencodable"] = cstats.get("unencodable", 0) + 1
             continue
         names = {v: k for k, v in enc.ids.items()}
-        outs = ctx.model.ask_many([f"(117 1 0 {sx})", f"(117 1 1 {sx})", f"(117 2 0 {sx})"])
+        outs = ctx.model.ask_many([f"(117 1 0 {sx})", f"(117 1 1 {sx})", f"(117 2 0 {sx})", f"(117 6 {sx})"])
+        # invariant of the representation (guard of C17_no_uuid_in_sheet_repaired): only has_group cases carry a
+        # group uuid.  It must hold of EVERY encoded flow, malformed and corner streams included.
+        cstats["flow_wf_checked"] = cstats.get("flow_wf_checked", 0) + 1
+        if parse_sexp(outs[3]) != 1:
+            ctx.disagree("flow_wf is false on an encoded flow (the guard of C17_no_uuid_in_sheet_repaired is a restriction after all)",
+                         dict(kind=kind, container=cont), outs[3], "every flow file")
         for nb in (False, True):
             ir = run_cli_mode(fl.to_rows, nb)
             mo = parse_sexp(outs[1 if nb else 0])
@@ -375,6 +476,17 @@ def correspond(ctx, kind, cont, cstats, leak_expected=None):
             mrows = [model_row(x, names) for x in mo[1]]
             irows = [impl_row(x) for x in ir[1]]
             cstats["rows"] = cstats.get("rows", 0) + len(irows)
+            # the row-id column and the references on their own (what C17_numbered_ids_are_1_to_n /
+            # C17_readable_ids_unique talk about), before the comparison of whole rows
+            mskel = [(r[0], [e[0] for e in r[2]], r[3]) for r in mrows]
+            iskel = [(r[0], [e[0] for e in r[2]], r[3]) for r in irows]
+            cstats["rowid_columns_compared"] = cstats.get("rowid_columns_compared", 0) + 1
+            if mskel != iskel:
+                k = next((i for i in range(min(len(mskel), len(iskel))) if mskel[i] != iskel[i]), min(len(mskel), len(iskel)))
+                ctx.disagree("to_rows: row-id column / references", dict(where, container=cont, first_difference_at_row=k),
+                             repr(mskel[k] if k < len(mskel) else None), repr(iskel[k] if k < len(iskel) else None))
+            if not nb:
+                rowid_features(fl, irows, ctx.stats.setdefault("rowid_features_of_compared_flows", {}))
             if mrows != irows:
                 k = next((i for i in range(min(len(mrows), len(irows))) if mrows[i] != irows[i]), min(len(mrows), len(irows)))
                 ctx.disagree("to_rows", dict(where, container=cont, first_difference_at_row=k),
@@ -395,6 +507,33 @@ def correspond(ctx, kind, cont, cstats, leak_expected=None):
                     ctx.disagree("export_strip: uuid reaches a cell", dict(kind=kind, container=cont), model_leak, impl_leak)
 
 
+def correspond_leaves(ctx, cstats):
+    """The two leaf functions every row id is made of: common.mangle_string against the model's
+    [mangle_string] (truncation at 15, replaced / removed characters) and str(n) against [dec_of_N]."""
+    from rpft.rapidpro.models.common import mangle_string
+
+    rng = ctx.rng
+    alphabet = "abcXYZ019 ._-|;:,!?/\\\"'()[]{}<>@#\t\né日\u00a0"
+    strs = ["", " ", ".", "a" * 15, "a" * 16, "a b.c-d_e", "this is a long message text over fifteen", "....................", "é" * 20 + "abc"]
+    strs += G.WORDS + G.CLASH_WORDS + G.NAMES
+    for _ in range(250 * ctx.scale):
+        strs.append("".join(rng.choice(alphabet) for _ in range(rng.choice([1, 5, 14, 15, 16, 17, 30]))))
+    outs = ctx.model.ask_many([f"(117 3 {enc_str(x)})" for x in strs])
+    for x, o in zip(strs, outs):
+        ctx.v.coverage["evaluations"] += 1
+        got, want = dec_str(parse_sexp(o)), mangle_string(x)
+        if got != want:
+            ctx.disagree("mangle_string", x, got, want)
+    nums = sorted(set([0, 1, 9, 10, 11, 19, 20, 99, 100, 101, 999, 1000, 4095, 65535] + [rng.randrange(0, 20000) for _ in range(60)]))
+    outs = ctx.model.ask_many([f"(117 4 {n})" for n in nums])
+    for n, o in zip(nums, outs):
+        ctx.v.coverage["evaluations"] += 1
+        if dec_str(parse_sexp(o)) != str(n):
+            ctx.disagree("dec_of_N", n, dec_str(parse_sexp(o)), str(n))
+    cstats["mangle_compared"] = cstats.get("mangle_compared", 0) + len(strs)
+    cstats["decimal_compared"] = cstats.get("decimal_compared", 0) + len(nums)
+
+
 # ------------------------------------------------------------------ run
 def run(ctx):
     logging.getLogger("rpft.rapidpro.models.routers").setLevel(logging.ERROR)
@@ -409,6 +548,9 @@ def run(ctx):
                                                    "with_dead_end": 0, "with_multi_action": 0, "nodes": 0, "goto_rows": 0})
     nontrivial = set()
     cstats = ctx.stats.setdefault("correspondence", {})
+
+    if ctx.model:
+        correspond_leaves(ctx, cstats)
 
     conts = []
     fixture = json.load(open(os.path.join(REPO, FIXTURE)))
@@ -443,6 +585,10 @@ def run(ctx):
                          ("with_dead_end", "dead"), ("with_multi_action", "multi_action")):
                 feat[a] += 1 if g[b] else 0
         base = {nb: export_impl(cont, nb) for nb in (False, True)}
+        v.coverage["evaluations"] += 1
+        bad = check_same_graph(base[False], base[True])
+        if bad:
+            v.failing_input(bad[0], bad[1], dict(fn="samegraph", container=cont))
         if ctx.model:
             correspond(ctx, kind, cont, cstats)
         if kind.startswith("malformed"):
@@ -499,9 +645,12 @@ def run(ctx):
     v.coverage["rule"] = (
         "every container (fixture tests/output/all_test_flows.json + generated: basic/multi-action nodes, switch/wait/"
         "group/random routers, enter_flow/webhook/airtime nodes, arbitrary destinations incl. joins, cycles, self-loops, "
+        "shape 'loops': several back edges from one node / into one node and texts whose mangled names clash, "
         "dead ends, shared exits, categories without case, default with case; ~15% malformed, ~4% corner) is exported "
         "with strip_uuids under >= 2 renamings (fresh/permute/reverse/upper) x numbered in {False,True}; an evaluation = "
-        "one (container, renaming, numbered) byte comparison incl. uuid scan and row-id check, or one hash-seed "
+        "one (container, renaming, numbered) byte comparison incl. uuid scan and row-id check (numbered 1..n, readable "
+        "unique, every from / go_to target cell names a row), one comparison of the graphs denoted by the readable and "
+        "the numbered sheet of a container (same positions referenced), or one hash-seed "
         "re-export; non-trivial = distinct stripped sheet text with >= 3 rows")
     v.coverage["samples"] = [dict(kind=k, flows=[f["name"] for f in c["flows"]], nodes=[len(f["nodes"]) for f in c["flows"]])
                              for k, c in (conts[0], conts[1], conts[len(conts) // 2], conts[-1])]
@@ -525,6 +674,11 @@ def replay(rep):
         cont2 = ren.apply(cont)
         nb = r["numbered"]
         bad = check_export(cont, ren, nb, export_impl(cont, nb), export_impl(cont2, nb))
+        if bad:
+            print("   ", bad[0], "-", bad[1])
+        return bad is None
+    if r["fn"] == "samegraph":
+        bad = check_same_graph(export_impl(r["container"], False), export_impl(r["container"], True))
         if bad:
             print("   ", bad[0], "-", bad[1])
         return bad is None
